@@ -188,9 +188,12 @@ def obligations(tier: str):
         fxn = "fmin" if rep == "sge" and not T else "f0"
         add("crossover", f"{rep}_crossover", fixture=fxn, rep=rep, decider="grow", max_depth=2 if rep == "sge" else 3, gene_length=3 if T else 2, timeout=200)
         add("mutate", f"{rep}_mutate", fixture=fxn, rep=rep, decider="grow", max_depth=2 if rep == "sge" else 3, gene_length=3 if T else 2, timeout=200)
-    add("mutate_after_crossover", "dsge_mutate_after_crossover_f3b", fixture="f3b", rep="dsge", max_depth=2, timeout=200)
-    add("mutate_after_crossover", "dsge_mutate_after_crossover_f0", fixture="f0", rep="dsge", max_depth=3, timeout=200)
-    add("mutate_after_crossover", "sge_mutate_after_crossover_fmin", fixture="fmin", rep="sge", decider="grow", max_depth=2, gene_length=2, timeout=200)
+    # parents that have read different sets of keys (f8: none / int / bool+int)
+    add("mutate_after_crossover", "dsge_mutate_after_crossover_f8", fixture="f8", grammar_fn="grammar_p0_p3" if not T else "grammar", rep="dsge", max_depth=2, timeout=200)
+    add("crossover", "dsge_crossover_f8", fixture="f8", rep="dsge", max_depth=2, timeout=200)
+    if T:
+        add("mutate_after_crossover", "dsge_mutate_after_crossover_f0", fixture="f0", rep="dsge", max_depth=3, timeout=200)
+        add("mutate_after_crossover", "sge_mutate_after_crossover_fmin", fixture="fmin", rep="sge", decider="grow", max_depth=2, gene_length=1, timeout=200)
     for step in ("crossover", "mutation"):
         add("steps", f"step_{step}_ge", fixture="f0", rep="ge", decider="grow", max_depth=2, gene_length=3, step=step, n=3 if T else 2)
     return obs
